@@ -101,3 +101,62 @@ func verifHarness_C07_twin() {
 		verifCover("C07 answer served from the cache")
 	}
 }
+
+// The same comparison through the dispatcher: what a handler sees (which
+// route, which parameters) on a caching router equals what it sees on the
+// twin without a cache, for every request of a history (the context of one
+// request is recycled for the next).
+func verifHarness_C07_served() {
+	cfg := verifCfg()
+	defs := [][]verifRouteDef{
+		{{"/{v}", []string{"GET"}}, {"/{w}/{x}", []string{"GET"}}},
+		{{"/u/{id}", []string{"GET"}}, {"/{oid}/{item}", []string{"GET"}}},
+	}[cfg%2]
+	capacity := 2 + (cfg/2)%2
+	type seen struct {
+		route  int
+		params Params
+	}
+	mk := func(opts ...func(*Router)) (*Router, *[]seen) {
+		var log []seen
+		r := New(opts...)
+		for i, d := range defs {
+			i := i
+			r.Add(d.pat, func(c *Context) {
+				cp := Params{}
+				for k, v := range c.Params {
+					cp[k] = v
+				}
+				log = append(log, seen{i, cp})
+			}, d.methods...)
+		}
+		return r, &log
+	}
+	rOff, logOff := mk()
+	rOn, logOn := mk(CachingWithNum(uint16(capacity)))
+	K := verifParam("K")
+	for k := 0; k < K; k++ {
+		n := verifLen("n", 2, verifParam("L"))
+		p := verifNormalPathN("p", n)
+		*logOff, *logOn = nil, nil
+		rOff.ServeHTTP(verifNewWriter(), verifRequest("GET", p))
+		rOn.ServeHTTP(verifNewWriter(), verifRequest("GET", p))
+		same := len(*logOff) == len(*logOn)
+		if same && len(*logOff) == 1 {
+			a, b := (*logOff)[0], (*logOn)[0]
+			same = a.route == b.route && len(a.params) == len(b.params)
+			if same {
+				for key, v := range a.params {
+					w, has := b.params[key]
+					if !has {
+						same = false
+						break
+					}
+					same = verifAnd(same, v == w)
+				}
+			}
+		}
+		verifAssert(same, "the handler on the caching router sees the route and parameters its twin sees")
+	}
+	verifCover("C07 served history")
+}
